@@ -147,7 +147,12 @@ fn fifo_snapshot(inode: &Rc<RefCell<Inode>>) -> (Vec<u8>, usize, usize) {
     }
 }
 
+thread_local! {
+    static WATCHDOG: sched::Watchdog = sched::Watchdog::start(Duration::from_secs(60));
+}
+
 fn stream_a_case(w: &mut CasesWriter, r: &mut Rng, nops: usize, forced: Option<Vec<POp>>) {
+    WATCHDOG.with(|wd| wd.tick("stream A"));
     let system = VirtualSystem::new();
     let (rfd, wfd) = system.pipe().unwrap();
     system.get_and_set_nonblocking(rfd, true).unwrap();
@@ -345,6 +350,20 @@ enum ReaderKind {
 }
 
 fn stream_b_case(w: &mut CasesWriter, r: &mut Rng, chunks: Vec<Vec<u8>>, reader: ReaderKind, style: usize) {
+    stream_b_case_with(w, r, chunks, reader, style, &[]);
+}
+
+/// `style` 4: the choices are replayed from `prefix` (then the first option); the
+/// path of (choice, number of options) is returned for depth-first enumeration.
+fn stream_b_case_with(
+    w: &mut CasesWriter,
+    r: &mut Rng,
+    chunks: Vec<Vec<u8>>,
+    reader: ReaderKind,
+    style: usize,
+    prefix: &[usize],
+) -> Vec<(usize, usize)> {
+    WATCHDOG.with(|wd| wd.tick(&format!("stream B: chunks {:?} reader {reader:?} style {style}", chunks.iter().map(|c| c.len()).collect::<Vec<_>>())));
     let chunks_t: Vec<String> = chunks.iter().map(|c| coq_bytes(c)).collect();
     let total: usize = chunks.iter().map(|c| c.len()).sum();
     let (caps, dflt) = match &reader {
@@ -358,6 +377,7 @@ fn stream_b_case(w: &mut CasesWriter, r: &mut Rng, chunks: Vec<Vec<u8>>, reader:
     let mut yields = 0usize;
     let mut rng = r.clone();
     let reader2 = reader.clone();
+    let path_cell: RefCell<Vec<(usize, usize)>> = RefCell::new(vec![]);
     let result = catch_unwind(AssertUnwindSafe(|| {
         let vs = VirtualSystem::new();
         let system = Rc::new(Concurrent::new(vs.clone()));
@@ -422,7 +442,15 @@ fn stream_b_case(w: &mut CasesWriter, r: &mut Rng, chunks: Vec<Vec<u8>>, reader:
             if sched.is_woken(rt) {
                 options.push(1);
             }
-            let choice = if options.is_empty() {
+            let choice = if style == 4 {
+                // all options, the peek last
+                let mut all = options.clone();
+                all.push(2);
+                let step = path_cell.borrow().len();
+                let k = prefix.get(step).copied().unwrap_or(0).min(all.len() - 1);
+                path_cell.borrow_mut().push((k, all.len()));
+                all[k]
+            } else if options.is_empty() {
                 2
             } else {
                 match style {
@@ -520,6 +548,7 @@ fn stream_b_case(w: &mut CasesWriter, r: &mut Rng, chunks: Vec<Vec<u8>>, reader:
     });
     let key = if total > PIPE_SIZE && yields >= 2 { Some(format!("B:{sizes:?}:{}", human.join(" "))) } else { None };
     w.push(&term, &json, &[], key);
+    path_cell.into_inner()
 }
 
 fn gen_chunks(r: &mut Rng, start: usize) -> Vec<Vec<u8>> {
@@ -797,8 +826,20 @@ fn policy_of(kind: usize, seed: u64) -> (Policy, String) {
 }
 
 fn stream_c_case(w: &mut CasesWriter, e: &DExp, route: &Route, pol_kind: usize, pol_seed: u64) {
-    let script = render(e, route);
     let (policy, pol_name) = policy_of(pol_kind, pol_seed);
+    stream_c_case_with(w, e, route, policy, pol_name);
+}
+
+/// Returns the path of scheduling choices (for depth-first enumeration).
+fn stream_c_case_with(
+    w: &mut CasesWriter,
+    e: &DExp,
+    route: &Route,
+    policy: Policy,
+    pol_name: String,
+) -> sched::Path {
+    let script = render(e, route);
+    WATCHDOG.with(|wd| wd.tick(&script));
     SUNK.with(|s| s.borrow_mut().clear());
     let (o, info) = run_shell_sched(
         RunOpts { argv: vec!["-c".into(), script.clone()], ..Default::default() },
@@ -885,11 +926,12 @@ fn stream_c_case(w: &mut CasesWriter, e: &DExp, route: &Route, pol_kind: usize, 
         "C.payload:<=PIPE_BUF"
     });
     let key = if total > PIPE_SIZE && info.branch_free() > 0 {
-        Some(format!("C:{}:{}", script.len(), digest_bytes(script.as_bytes()).1))
+        Some(format!("C:{}:{}:{:?}", script.len(), digest_bytes(script.as_bytes()).1, info.path))
     } else {
         None
     };
     w.push(&term, &json, &[], key);
+    info.path
 }
 
 trait BranchInfo {
@@ -907,6 +949,7 @@ impl BranchInfo for sched::SchedInfo {
 
 fn stream_d_case(w: &mut CasesWriter, text: &str) {
     let script = format!("x=$(put {}\n)\nargs \"$x\"", squote(text));
+    WATCHDOG.with(|wd| wd.tick(&script));
     let (o, _) = vsh::run_shell(
         RunOpts { argv: vec!["-c".into(), script.clone()], ..Default::default() },
         |env, _| install(env),
@@ -942,7 +985,7 @@ fn main() {
     let args = Args::parse();
     std::panic::set_hook(Box::new(|_| {}));
     let mut rng = Rng::new(args.seed);
-    let mut w = CasesWriter::new(&args, "Yv.C14.Run", 20);
+    let mut w = CasesWriter::new(&args, "Yv.C14.Run", args.scale(20, 80));
 
     // ---- corpus -----------------------------------------------------------------
     {
@@ -1027,14 +1070,14 @@ fn main() {
     }
 
     // ---- generated -----------------------------------------------------------------
-    let na = args.scale(220, 4000);
+    let na = args.scale(180, 4000);
     for k in 0..na {
         let mut r = rng.fork(1000 + k as u64);
         let nops = if args.thorough() { 4 + r.below(36) } else { 4 + r.below(24) };
         stream_a_case(&mut w, &mut r, nops, None);
     }
 
-    let nb = args.scale(300, 5000);
+    let nb = args.scale(240, 5000);
     for k in 0..nb {
         let mut r = rng.fork(2_000_000 + k as u64);
         let start = r.below(251);
@@ -1057,6 +1100,66 @@ fn main() {
         stream_b_case(&mut w, &mut r, chunks, reader, style);
     }
 
+    // depth-first enumeration of the schedules (poll writer / poll reader / peek) of a few
+    // small configurations
+    if args.thorough() {
+        let configs: Vec<(Vec<usize>, ReaderKind)> = vec![
+            (vec![PIPE_SIZE + 1], ReaderKind::Caps(vec![], PIPE_SIZE)),
+            (vec![2 * PIPE_SIZE + 3], ReaderKind::ReadAll),
+            (vec![PIPE_BUF, PIPE_BUF + 1, 1], ReaderKind::Caps(vec![600], 600)),
+            (vec![PIPE_SIZE + PIPE_BUF], ReaderKind::Caps(vec![1, PIPE_BUF - 1], PIPE_SIZE)),
+            (vec![3], ReaderKind::Caps(vec![], 1)),
+        ];
+        for (ci, (sizes, reader)) in configs.into_iter().enumerate() {
+            let mut prefix: Vec<usize> = vec![];
+            let mut count = 0;
+            loop {
+                let mut r = rng.fork(7_000_000 + ci as u64);
+                let mut pos = 0;
+                let chunks: Vec<Vec<u8>> = sizes
+                    .iter()
+                    .map(|n| {
+                        let v = sq(pos, *n);
+                        pos = (pos + n) % 251;
+                        v
+                    })
+                    .collect();
+                let path = stream_b_case_with(&mut w, &mut r, chunks, reader.clone(), 4, &prefix);
+                count += 1;
+                match sched::next_prefix(&path, 11) {
+                    Some(n) if count < 600 => prefix = n,
+                    _ => break,
+                }
+            }
+            w.count(&format!("B.dfs-schedules:{}", count));
+        }
+    }
+
+    // depth-first enumeration of the process schedules of a few small scripts
+    if args.thorough() {
+        let configs: Vec<(DExp, Route)> = vec![
+            (DExp::Gen(PIPE_SIZE + 1, 2, 0, 0), Route::Pipe(1, 1024)),
+            (DExp::Gen(2 * PIPE_SIZE + 1, 3, 1, 0), Route::Pipe(1, PIPE_BUF)),
+            (DExp::Gen(PIPE_SIZE + PIPE_BUF + 1, 4, 0, 0), Route::Pipe(2, 1024)),
+            (DExp::Gen(PIPE_SIZE + 1, 5, 2, 0), Route::Var),
+            (DExp::Subst(Box::new(DExp::Gen(PIPE_SIZE + 1, 6, 1, 0))), Route::Var),
+            (DExp::Gen(3, 7, 0, 1), Route::Pipe(3, 1)),
+        ];
+        for (e, route) in &configs {
+            let mut prefix: Vec<usize> = vec![];
+            let mut count = 0;
+            loop {
+                let path = stream_c_case_with(&mut w, e, route, Policy::Prefix(prefix.clone()), format!("dfs:{count}"));
+                count += 1;
+                match sched::next_prefix(&path, 12) {
+                    Some(n) if count < 400 => prefix = n,
+                    _ => break,
+                }
+            }
+            w.count(&format!("C.dfs-schedules:{}", count));
+        }
+    }
+
     // exhaustive over the boundary sizes: one producer, 0-3 pipes, command substitution
     if args.thorough() {
         let sizes = boundary_sizes();
@@ -1077,7 +1180,7 @@ fn main() {
         }
     }
 
-    let nc = args.scale(150, 1500);
+    let nc = args.scale(120, 1500);
     for k in 0..nc {
         let mut r = rng.fork(3_000_000 + k as u64);
         let depth = *r.pick(&[0usize, 0, 1, 1, 2, 3]);
